@@ -165,7 +165,7 @@ class UInterp(mirsym.Interp):
         if n in ('Result::is_ok', 'Result::is_err'):
             r = args[0] if isinstance(args[0], Enum) else st.load(args[0])
             return cont(st, (r.variant == 'Ok') == n.endswith('is_ok'))
-        if n == 'fence' or n.endswith('::fence'):
+        if n == 'compiler_fence' or n.endswith('::compiler_fence') or n == 'fence' or n.endswith('::fence'):
             return cont(st, Opaque('unit'))
         if n.endswith('Atomic::new'):
             return cont(st, Struct('Atomic', [args[0]]))
